@@ -996,17 +996,17 @@ theorem balancedLayout_shape (c : Cfg) (cs : List Chunk) (o : Out) (h : balanced
 @[simp] theorem tshape_leaf (w : Nat) (m : Int) (x : List UInt8) : tshape w m (.leaf x) = (m == 0) := by
   simp [tshape]
 @[simp] theorem tshape_node (w : Nat) (m : Int) (fs : Nat) (cs : List (FNode × Nat)) :
-    tshape w m (.node fs cs) = (m != 0 && tshapeL w m 0 cs) := by simp [tshape]
-@[simp] theorem tshapeL_nil (w : Nat) (m : Int) (i : Nat) : tshapeL w m i [] = true := by simp [tshapeL]
-theorem tshapeL_cons (w : Nat) (m : Int) (i : Nat) (c : FNode × Nat) (r : List (FNode × Nat)) :
-    tshapeL w m i (c :: r) =
-      ((if i < w then tshape w 0 c.1
+    tshape w m (.node fs cs) = (m != 0 && tshapeL true w m 0 cs) := by simp [tshape]
+@[simp] theorem tshapeL_nil (st : Bool) (w : Nat) (m : Int) (i : Nat) : tshapeL st w m i [] = true := by simp [tshapeL]
+theorem tshapeL_cons (st : Bool) (w : Nat) (m : Int) (i : Nat) (c : FNode × Nat) (r : List (FNode × Nat)) :
+    tshapeL st w m i (c :: r) =
+      ((if i < w then (!st || tshape w 0 c.1)
         else !(decide (((((i - w) / depthRepeat + 1 : Nat) : Int)) ≥ m) && decide (m > 0)) &&
-          tshape w (((i - w) / depthRepeat + 1 : Nat) : Int) c.1) && tshapeL w m (i + 1) r) := by
+          tshape w (((i - w) / depthRepeat + 1 : Nat) : Int) c.1) && tshapeL st w m (i + 1) r) := by
   simp [tshapeL]
 
-theorem tshapeL_append (w : Nat) (m : Int) (a b : List (FNode × Nat)) : ∀ i,
-    tshapeL w m i (a ++ b) = (tshapeL w m i a && tshapeL w m (i + a.length) b) := by
+theorem tshapeL_append (st : Bool) (w : Nat) (m : Int) (a b : List (FNode × Nat)) : ∀ i,
+    tshapeL st w m i (a ++ b) = (tshapeL st w m i a && tshapeL st w m (i + a.length) b) := by
   induction a with
   | nil => intro i; simp
   | cons c r ih =>
@@ -1034,8 +1034,8 @@ theorem bshapeL_zero (w : Nat) (l : List (FNode × Nat)) (h : bshapeL w 0 l = tr
       simp only [fullL_cons, Bool.and_eq_true] at ih ⊢
       exact ⟨h.1, ih h.2⟩
 
-theorem tshapeL_leaves (w : Nat) (m : Int) (l : List (FNode × Nat)) (h : fullL w 0 l = true) :
-    ∀ i, i + l.length ≤ w → tshapeL w m i l = true := by
+theorem tshapeL_leaves (st : Bool) (w : Nat) (m : Int) (l : List (FNode × Nat)) (h : fullL w 0 l = true) :
+    ∀ i, i + l.length ≤ w → tshapeL st w m i l = true := by
   induction l with
   | nil => intro i _; simp
   | cons c r ih =>
@@ -1060,13 +1060,13 @@ theorem fillNodeLayer_leaves (w : Nat) (hw : 1 ≤ w) (db : DB) :
 def SubShape (w : Nat) (sub : Nat → DB → Option (DB × FNode × Nat)) : Prop :=
   ∀ d db r, 1 ≤ d → sub d db = some r → tshape w (d : Int) r.2.1 = true
 
-theorem repeatLoop_shape (w : Nat) (m : Int) (d : Nat) (hd1 : 1 ≤ d) (hm : m = -1 ∨ (d : Int) < m)
+theorem repeatLoop_shape (st : Bool) (w : Nat) (m : Int) (d : Nat) (hd1 : 1 ≤ d) (hm : m = -1 ∨ (d : Int) < m)
     (child : DB → Option (DB × FNode × Nat))
     (hchild : ∀ db r, child db = some r → tshape w (d : Int) r.2.1 = true) :
     ∀ (k j : Nat) (b : Builder) (db : DB) (r : Builder × DB), k + j = 4 →
-      b.numChildren = w + 4 * (d - 1) + j → tshapeL w m 0 b.links = true →
+      b.numChildren = w + 4 * (d - 1) + j → tshapeL st w m 0 b.links = true →
       repeatLoop child k b db = some r →
-      tshapeL w m 0 r.1.links = true ∧ (r.2.pending ≠ [] → r.1.numChildren = w + 4 * d) := by
+      tshapeL st w m 0 r.1.links = true ∧ (r.2.pending ≠ [] → r.1.numChildren = w + 4 * d) := by
   intro k
   induction k with
   | zero =>
@@ -1099,12 +1099,12 @@ theorem repeatLoop_shape (w : Nat) (m : Int) (d : Nat) (hd1 : 1 ≤ d) (hm : m =
         · have : ¬ ((d : Int) ≥ m) := by omega
           simp [this]
 
-theorem depthLoopC_shape (w : Nat) (m : Int) (cond : Nat → Bool)
+theorem depthLoopC_shape (st : Bool) (w : Nat) (m : Int) (cond : Nat → Bool)
     (hcond : ∀ d, cond d = true → m = -1 ∨ (d : Int) < m)
     (sub : Nat → DB → Option (DB × FNode × Nat)) (hsub : SubShape w sub) :
     ∀ (fuel d : Nat) (b : Builder) (db : DB) (r : Builder × DB), 1 ≤ d →
-      tshapeL w m 0 b.links = true → (db.pending ≠ [] → b.numChildren = w + 4 * (d - 1)) →
-      depthLoopC cond sub fuel d b db = some r → tshapeL w m 0 r.1.links = true := by
+      tshapeL st w m 0 b.links = true → (db.pending ≠ [] → b.numChildren = w + 4 * (d - 1)) →
+      depthLoopC cond sub fuel d b db = some r → tshapeL st w m 0 r.1.links = true := by
   intro fuel
   induction fuel with
   | zero => intro d b db r _ _ _ h; simp [depthLoopC] at h
@@ -1125,18 +1125,18 @@ theorem depthLoopC_shape (w : Nat) (m : Int) (cond : Nat → Bool)
         | none => simp [hr] at h
         | some r1 =>
           simp only [hr] at h
-          obtain ⟨s1, s2⟩ := repeatLoop_shape w m d hd1 (hcond d hc) (sub d) (fun db r => hsub d db r hd1)
+          obtain ⟨s1, s2⟩ := repeatLoop_shape st w m d hd1 (hcond d hc) (sub d) (fun db r => hsub d db r hd1)
             4 0 b db.done.1 r1 (by omega) (by simpa using hn hp) hs hr
           exact ih (d + 1) _ _ _ (by omega) s1 (fun hp' => by simpa using s2 hp') h
     | false =>
       simp only [hc, Bool.false_eq_true, if_false, Option.some.injEq] at h
       subst h; exact hs
 
-theorem depthLoop_shape (w : Nat) (m : Int) (sub : Nat → DB → Option (DB × FNode × Nat)) (hsub : SubShape w sub) :
+theorem depthLoop_shape (st : Bool) (w : Nat) (m : Int) (sub : Nat → DB → Option (DB × FNode × Nat)) (hsub : SubShape w sub) :
     ∀ (fuel d : Nat) (b : Builder) (db : DB) (r : Builder × DB), 1 ≤ d →
-      tshapeL w m 0 b.links = true → (db.pending ≠ [] → b.numChildren = w + 4 * (d - 1)) →
-      depthLoop sub m fuel d b db = some r → tshapeL w m 0 r.1.links = true :=
-  depthLoopC_shape w m _ (fun d h => by simpa using h) sub hsub
+      tshapeL st w m 0 b.links = true → (db.pending ≠ [] → b.numChildren = w + 4 * (d - 1)) →
+      depthLoop sub m fuel d b db = some r → tshapeL st w m 0 r.1.links = true :=
+  depthLoopC_shape st w m _ (fun d h => by simpa using h) sub hsub
 
 theorem fillTrickleRec_shape (w : Nat) (hw : 1 ≤ w) : ∀ (fuel : Nat) (m : Int) (db : DB) (r : DB × FNode × Nat),
     (m = -1 ∨ 1 ≤ m) → fillTrickleRec w fuel m {} db = some r → tshape w m r.2.1 = true := by
@@ -1156,8 +1156,8 @@ theorem fillTrickleRec_shape (w : Nat) (hw : 1 ≤ w) : ∀ (fuel : Nat) (m : In
       have hsub : SubShape w (fun d => fillTrickleRec w fuel (d : Int) {}) := by
         intro d db' r' hd1 hr'
         exact ih (d : Int) db' r' (Or.inr (by omega)) hr'
-      have := depthLoop_shape w m _ hsub fuel 1 _ _ _ (Nat.le_refl _)
-        (tshapeL_leaves w m _ l1 0 (by simpa [Builder.numChildren] using l2))
+      have := depthLoop_shape true w m _ hsub fuel 1 _ _ _ (Nat.le_refl _)
+        (tshapeL_leaves true w m _ l1 0 (by simpa [Builder.numChildren] using l2))
         (fun hp => by simpa using l3 hp) hd
       have hm0 : m ≠ 0 := by omega
       simp [Builder.commit, this, hm0]
